@@ -91,7 +91,7 @@ func (l *limitListener) increment(ctx context.Context) (isClosed bool) {
 	// the listener hasn't been closed.  Only log about waiting for an increment
 	// when such waiting actually took place.
 	waited := false
-	for !l.counter.increment() && !l.isClosed {
+	for !l.isClosed && !l.counter.increment() {
 		if !waited {
 			l.logger.DebugContext(ctx, "accept waiting")
 
